@@ -35,6 +35,8 @@ Fixpoint adel {A} (k : N) (l : list (N * A)) : list (N * A) :=
 
 Definition aset {A} (k : N) (v : A) (l : list (N * A)) : list (N * A) := (k, v) :: adel k l.
 
+Definition is_nil {A} (l : list A) : bool := match l with [] => true | _ => false end.
+
 Fixpoint nodupb (l : list N) : bool :=
   match l with [] => true | x :: t => negb (mem x t) && nodupb t end.
 
@@ -204,10 +206,8 @@ Fixpoint deqn (n : nat) (s : st) : st * list N :=
 
 (** write_slot(SET) + notify_receiver; resolve_run + one notify_receiver *)
 Definition pushl (vs : list N) (s : st) : st :=
-  match vs with
-  | [] => s
-  | _ => notify_receiver (set_acc (set_q s (q s ++ vs)) (acc s ++ vs))
-  end.
+  if is_nil vs then s
+  else notify_receiver (set_acc (set_q s (q s ++ vs)) (acc s ++ vs)).
 Definition push (v : N) (s : st) : st := pushl [v] s.
 
 (** handle helpers *)
@@ -268,9 +268,8 @@ Definition do_try_send_b (s : st) (h : N) (vs : list N) (inplace : bool) : st * 
   match aget h (hs s) with
   | Some r =>
       if htx r && fresh vs s then
-        match vs with
-        | [] => (s, if inplace then RMutOk 0 [] else RBatchOk 0)
-        | _ =>
+        if is_nil vs then (s, if inplace then RMutOk 0 [] else RBatchOk 0)
+        else
           let s := use vs s in
           if tx_dead s r then
             (giveback vs s, if inplace then RMutClosed vs else RBatchErr 0 false vs)
@@ -278,12 +277,10 @@ Definition do_try_send_b (s : st) (h : N) (vs : list N) (inplace : bool) : st * 
             let k := N.to_nat (N.min (len vs) (cold_slack s)) in
             let s1 := pushl (firstn k vs) s in
             let rest := skipn k vs in
-            match rest with
-            | [] => (s1, if inplace then RMutOk (len vs) [] else RBatchOk (len vs))
-            | _ => (giveback rest s1,
-                    if inplace then RMutOk (N.of_nat k) rest else RBatchErr (N.of_nat k) true rest)
-            end
-        end
+            if is_nil rest
+            then (s1, if inplace then RMutOk (len vs) [] else RBatchOk (len vs))
+            else (giveback rest s1,
+                  if inplace then RMutOk (N.of_nat k) rest else RBatchErr (N.of_nat k) true rest)
       else (s, RBad)
   | None => (s, RBad)
   end.
@@ -292,15 +289,12 @@ Definition do_send_b (s : st) (h : N) (vs : list N) (inplace : bool) : st * res 
   match aget h (hs s) with
   | Some r =>
       if htx r && negb (hasync r) && fresh vs s then
-        match vs with
-        | [] => (s, if inplace then RMutOk 0 [] else RBatchOk 0)
-        | _ =>
-          if tx_dead s r then
-            (giveback vs (use vs s), if inplace then RMutClosed vs else RBatchErr 0 false vs)
-          else if len vs <=? hot_slack s then
-            (pushl vs (use vs s), if inplace then RMutOk (len vs) [] else RBatchOk (len vs))
-          else (s, RBlock)
-        end
+        if is_nil vs then (s, if inplace then RMutOk 0 [] else RBatchOk 0)
+        else if tx_dead s r then
+          (giveback vs (use vs s), if inplace then RMutClosed vs else RBatchErr 0 false vs)
+        else if len vs <=? hot_slack s then
+          (pushl vs (use vs s), if inplace then RMutOk (len vs) [] else RBatchOk (len vs))
+        else (s, RBlock)
       else (s, RBad)
   | None => (s, RBad)
   end.
@@ -353,10 +347,8 @@ Definition do_try_recv_b (s : st) (h max : N) : st * res :=
       if htx r then (s, RBad)
       else if max =? 0 then (s, RVals [])
       else if hclosed r then (s, RDisc)
-      else match deqn (N.to_nat max) s with
-           | (s1, []) => recv_tail s1 REmpty
-           | (s1, vs) => (flush s1, RVals vs)
-           end
+      else let '(s1, vs) := deqn (N.to_nat max) s in
+           if is_nil vs then recv_tail s1 REmpty else (flush s1, RVals vs)
   | None => (s, RBad)
   end.
 
@@ -366,10 +358,9 @@ Definition do_recv_b (s : st) (h max : N) : st * res :=
       if htx r || hasync r then (s, RBad)
       else if max =? 0 then (s, RVals [])
       else if hclosed r then (s, RDisc)
-      else match deqn (N.to_nat max) s with
-           | (s1, []) => if scount s1 =? 0 then (flush s1, RDisc) else (s, RBlock)
-           | (s1, vs) => (flush s1, RVals vs)
-           end
+      else let '(s1, vs) := deqn (N.to_nat max) s in
+           if is_nil vs then (if scount s1 =? 0 then (flush s1, RDisc) else (s, RBlock))
+           else (flush s1, RVals vs)
   | None => (s, RBad)
   end.
 
@@ -400,7 +391,7 @@ Definition do_drop_h (s : st) (h : N) : st * res :=
         let s0 := if negb (htx r) && hasync r && hreg r then set_rw s None else s in
         let s1 := if hclosed r then s0 else close_h s0 h r in
         let s2 := set_hs s1 (adel h (hs s1)) in
-        (match hs s2 with [] => destroy s2 | _ => s2 end, ROk)
+        (if is_nil (hs s2) then destroy s2 else s2, ROk)
   | None => (s, RBad)
   end.
 
@@ -485,13 +476,12 @@ Definition poll_recv_core (s : st) (o : owner) (w : N) (reg : bool) : st * bool 
 
 (** consumer.rs poll_recv_batch *)
 Definition poll_recv_b_core (s : st) (o : owner) (w max : N) (reg : bool) : st * bool * res :=
-  match deqn (N.to_nat max) s with
-  | (s1, []) =>
-      let s2 := flush s1 in
-      if scount s2 =? 0 then (if reg then set_rw s2 None else s2, false, RReady RDisc)
-      else (set_rw s2 (Some (o, w)), true, RPending)
-  | (s1, vs) => (flush (if reg then set_rw s1 None else s1), false, RReady (RVals vs))
-  end.
+  let '(s1, vs) := deqn (N.to_nat max) s in
+  if is_nil vs then
+    let s2 := flush s1 in
+    if scount s2 =? 0 then (if reg then set_rw s2 None else s2, false, RReady RDisc)
+    else (set_rw s2 (Some (o, w)), true, RPending)
+  else (flush (if reg then set_rw s1 None else s1), false, RReady (RVals vs)).
 
 Definition pend_of (s : st) (w : N) (r : res) : option (N * N) :=
   match r with RPending => Some (w, wk s w) | _ => None end.
@@ -525,15 +515,14 @@ Definition do_poll (s : st) (f w : N) : st * res :=
              RReady (RBatchErr sent false rest))
           else
             let j := N.to_nat (N.min (len rest) (hot_slack s)) in
-            let s1 := match j with O => s | _ => pushl (firstn j rest) (unreg_send f s) end in
+            let s1 := if is_nil (firstn j rest) then s else pushl (firstn j rest) (unreg_send f s) in
             let rest' := skipn j rest in
             let sent' := sent + N.of_nat j in
-            match rest' with
-            | [] => (put_f f (mkF (fh fr) (FSendB [] sent' total) None) s1, RReady (RBatchOk total))
-            | _ =>
-                let s2 := set_sq s1 (sq (unreg_send f s1) ++ [(f, w)]) in
-                (put_f f (mkF (fh fr) (FSendB rest' sent' total) (Some (w, wk s2 w))) s2, RPending)
-            end
+            if is_nil rest'
+            then (put_f f (mkF (fh fr) (FSendB [] sent' total) None) s1, RReady (RBatchOk total))
+            else
+              let s2 := set_sq s1 (sq (unreg_send f s1) ++ [(f, w)]) in
+              (put_f f (mkF (fh fr) (FSendB rest' sent' total) (Some (w, wk s2 w))) s2, RPending)
       | FRecv reg =>
           if hclosed r then (put_f f (mkF (fh fr) (FRecv reg) None) s, RReady RDisc)
           else
@@ -616,3 +605,29 @@ Fixpoint run (s : st) (ops : list op) : st * list out :=
   end.
 
 Definition final (s : st) (ops : list op) : st := fst (run s ops).
+
+(* ------------------------------------------------------------------ *)
+(** * vocabulary of the theorems (definitions only) *)
+
+Definition keysN {A} (l : list (N * A)) : list N := map fst l.
+Definition isopen (r : hrec) : bool := htx r && negb (hclosed r).
+(** number of sender handles whose close() has not succeeded *)
+Definition open_tx (l : list (N * hrec)) : N := len (filter (fun p => isopen (snd p)) l).
+
+(** every live future borrows a live async handle of the right side *)
+Definition fut_ok (s : st) : Prop :=
+  forall f fr, aget f (fs s) = Some fr ->
+    exists r, aget (fh fr) (hs s) = Some r /\ hasync r = true /\ htx r = negb (is_recv_kind (fk fr)).
+(** the receiver is not Clone: the only receiving handle is id 1 *)
+Definition rx_one (s : st) : Prop := forall h r, aget h (hs s) = Some r -> htx r = false -> h = 1.
+(** receiver_dropped is false exactly while the receiver handle is alive and not closed *)
+Definition rx_live (s : st) : Prop :=
+  rdrop s = false <-> exists r, aget 1 (hs s) = Some r /\ htx r = false /\ hclosed r = false.
+
+(** structural invariant: handle/future tables and the two shared lifecycle fields *)
+Definition GS (s : st) : Prop :=
+  NoDup (keysN (hs s)) /\ NoDup (keysN (fs s)) /\ fut_ok s /\ rx_one s
+  /\ scount s = open_tx (hs s) /\ rx_live s.
+
+(** capacity invariant *)
+Definition G1 (s : st) : Prop := 1 <= cap s /\ len (q s) <= cap s.
